@@ -13,9 +13,14 @@ package main
 // every step is bracketed by two readings [tlo, thi].  Observed: answered or not
 // (decided by a plain NTP sentinel request sent afterwards from the same socket;
 // a reply counts when it verifies under the session's S2C key), and the key id in
-// the clear header of every cookie handed out.  A history in which a step comes
-// closer than 300 ms to a decision boundary, or takes longer than 250 ms, is
-// thrown away and played again (the verdict must not depend on scheduling).
+// the clear header of every cookie handed out.  Four client sockets per listener
+// (SO_REUSEPORT spreads them over the listener goroutines); some steps are bursts
+// of requests sent at once through different sockets; key exchanges go over TLS
+// and over QUIC/SCION (server.StartNTSKEServerSCION).  The generation time of a
+// key and the hand-out time of a cookie are only known up to the bracket of the
+// step that produced them; a history in which the bracket of a step, widened by
+// that uncertainty, contains a decision boundary is thrown away and played again
+// (the verdict must not depend on scheduling; steps are planned >= 1 s away).
 
 import (
 	"bytes"
@@ -37,6 +42,7 @@ import (
 	"strconv"
 	"strings"
 	"sync"
+	"sync/atomic"
 	"time"
 
 	"github.com/google/gopacket"
@@ -49,6 +55,7 @@ import (
 	"example.com/scion-time/net/ntp"
 	"example.com/scion-time/net/nts"
 	"example.com/scion-time/net/ntske"
+	"example.com/scion-time/net/udp"
 
 	"verifharness/lib"
 )
@@ -71,9 +78,19 @@ const (
 	cliIA        = 0x0001ff0000000111
 	sec          = int64(time.Second)
 	ms           = int64(time.Millisecond)
-	ambMargin    = 300 * ms
-	ambWidth     = 250 * ms
+	ambSlack     = 20 * ms
+	nSocks       = 4
 )
+
+var lsnIA addr.IA
+
+func init() {
+	ia, err := addr.ParseIA("1-ff00:0:112")
+	if err != nil {
+		panic(err)
+	}
+	lsnIA = ia
+}
 
 // ---- the listeners of the child ------------------------------------------
 
@@ -88,11 +105,14 @@ type lsnSock struct {
 type lsnSession struct{ c2s, s2c []byte }
 
 type lsnCookie struct {
-	b     []byte
-	id    int64
-	issue int64 // thi of the step that handed it out
-	sess  *lsnSession
+	b        []byte
+	id       int64
+	issue    int64 // thi of the step that handed it out
+	issueLo  int64 // tlo of that step
+	sess     *lsnSession
 }
+
+type span struct{ lo, hi int64 }
 
 type lsnEnv struct {
 	ip       net.IP
@@ -101,8 +121,10 @@ type lsnEnv struct {
 	aged     int64
 	pool     *x509.CertPool
 	log      *slog.Logger
-	socks    [2]*lsnSock
+	socks    [2][nSocks]*lsnSock
+	quic     bool            // the NTS-KE server over QUIC/SCION is up
 	keys     map[int64]int64 // key id -> generation time (thi of the step that first showed it)
+	keyLo    map[int64]int64 // ... and the tlo of that step: the key was generated in between
 	maxID    int64
 	cookies  []lsnCookie
 	amb      bool
@@ -113,7 +135,7 @@ func (e *lsnEnv) vnow() int64 { return int64(time.Since(e.start)) + e.aged }
 
 func newLsnEnv() *lsnEnv {
 	pid := os.Getpid()
-	e := &lsnEnv{ip: net.IPv4(127, 12, byte(pid>>8), byte(pid)).To4(), log: slog.New(slog.DiscardHandler), keys: map[int64]int64{}}
+	e := &lsnEnv{ip: net.IPv4(127, 12, byte(pid>>8), byte(pid)).To4(), log: slog.New(slog.DiscardHandler), keys: map[int64]int64{}, keyLo: map[int64]int64{}}
 	timebase.RegisterClock(sysClock{})
 	priv, err := ecdsa.GenerateKey(elliptic.P256(), crand.Reader)
 	if err != nil {
@@ -140,19 +162,30 @@ func newLsnEnv() *lsnEnv {
 	ctx := context.Background()
 	e.start = time.Now()
 	e.provider = ntske.NewProvider()
-	e.keys[1], e.maxID = 0, 1
+	e.keys[1], e.keyLo[1], e.maxID = 0, 0, 1
 	ipDst := &net.UDPAddr{IP: e.ip, Port: lsnNTPPort}
 	scDst := &net.UDPAddr{IP: e.ip, Port: lsnSCIONPort}
 	server.StartIPServer(ctx, e.log, ipDst, 0, e.provider)
 	server.StartSCIONServer(ctx, e.log, "" /* no daemon */, scDst, 0, e.provider)
 	server.StartNTSKEServerIP(ctx, e.log, e.ip, lsnNTPPort, srvTLS, e.provider)
+	func() {
+		defer func() {
+			if r := recover(); r != nil {
+				fmt.Println("NOTE c12: NTS-KE over QUIC/SCION not available:", r)
+			}
+		}()
+		server.StartNTSKEServerSCION(ctx, e.log, udp.UDPAddr{IA: lsnIA, Host: &net.UDPAddr{IP: e.ip, Port: lsnSCIONPort}}, srvTLS, e.provider)
+		e.quic = true
+	}()
 	for i, dst := range []*net.UDPAddr{ipDst, scDst} {
-		c, err := net.ListenUDP("udp4", &net.UDPAddr{IP: e.ip, Port: 0})
-		if err != nil {
-			panic(err)
+		for j := 0; j < nSocks; j++ {
+			c, err := net.ListenUDP("udp4", &net.UDPAddr{IP: e.ip, Port: 0})
+			if err != nil {
+				panic(err)
+			}
+			c.SetReadBuffer(1 << 20)
+			e.socks[i][j] = &lsnSock{scion: i == 1, dst: dst, conn: c, ip: e.ip}
 		}
-		c.SetReadBuffer(1 << 20)
-		e.socks[i] = &lsnSock{scion: i == 1, dst: dst, conn: c, ip: e.ip}
 	}
 	for i := 0; ; i++ {
 		c, err := net.DialTimeout("tcp", net.JoinHostPort(e.ip.String(), strconv.Itoa(ntske.ServerPortIP)), time.Second)
@@ -181,12 +214,12 @@ func (l *lsnSock) wrap(payload []byte) []byte {
 	scn.DstIA, scn.SrcIA = addr.IA(srvIA), addr.IA(cliIA)
 	scn.DstAddrType, scn.SrcAddrType = slayers.T4Ip, slayers.T4Ip
 	scn.RawDstAddr, scn.RawSrcAddr = []byte(l.ip), []byte(l.ip)
-	var udp slayers.UDP
-	udp.SrcPort, udp.DstPort = scionUDPSrc, lsnSCIONPort
-	udp.SetNetworkLayerForChecksum(&scn)
+	var l4 slayers.UDP
+	l4.SrcPort, l4.DstPort = scionUDPSrc, lsnSCIONPort
+	l4.SetNetworkLayerForChecksum(&scn)
 	sb := gopacket.NewSerializeBuffer()
 	if err := gopacket.SerializeLayers(sb, gopacket.SerializeOptions{ComputeChecksums: true, FixLengths: true},
-		&scn, &udp, gopacket.Payload(payload)); err != nil {
+		&scn, &l4, gopacket.Payload(payload)); err != nil {
 		panic(err)
 	}
 	return append([]byte(nil), sb.Bytes()...)
@@ -208,14 +241,14 @@ func (l *lsnSock) unwrap(d []byte) (payload []byte, ok bool) {
 	if scn.NextHdr != slayers.L4UDP || scn.DstIA != addr.IA(cliIA) || scn.SrcIA != addr.IA(srvIA) {
 		return nil, false
 	}
-	var udp slayers.UDP
-	if err := udp.DecodeFromBytes(scn.Payload, gopacket.NilDecodeFeedback); err != nil {
+	var l4 slayers.UDP
+	if err := l4.DecodeFromBytes(scn.Payload, gopacket.NilDecodeFeedback); err != nil {
 		return nil, false
 	}
-	if udp.SrcPort != lsnSCIONPort || udp.DstPort != scionUDPSrc {
+	if l4.SrcPort != lsnSCIONPort || l4.DstPort != scionUDPSrc {
 		return nil, false
 	}
-	return append([]byte(nil), udp.Payload...), true
+	return append([]byte(nil), l4.Payload...), true
 }
 
 // probe sends pkt, then a plain NTP sentinel, and returns the payloads received
@@ -262,28 +295,33 @@ func (l *lsnSock) probe(pkt []byte) (replies [][]byte, ok bool) {
 // ---- steps ----------------------------------------------------------------
 
 type lsnStep struct {
-	req bool
-	t   int64 // planned virtual time
-	lsn int
-	c   int
+	req  bool
+	t    int64 // planned virtual time
+	lsn  int   // request: listener kind + 2 * client socket; key exchange: 0 = TLS, 1 = QUIC over SCION
+	c    int
 }
 
 type lsnObs struct {
 	lo, hi int64
 	ans    int
 	ids    []int64
+	cs     [][]byte
+	sess   *lsnSession
 }
 
-func (e *lsnEnv) boundaries() []int64 {
-	var bs []int64
-	for _, g := range e.keys {
-		bs = append(bs, g+renewal, g+validity)
+// boundaries: the instants at which a decision changes - a key's generation + 24 h
+// (renewal) and + 72 h (end of validity), a cookie's hand-out + 48 h -, each known only
+// up to the bracket of the step that generated the key / handed out the cookie.
+func (e *lsnEnv) boundaries() []span {
+	var bs []span
+	for id, g := range e.keys {
+		bs = append(bs, span{e.keyLo[id] + renewal, g + renewal}, span{e.keyLo[id] + validity, g + validity})
 	}
 	seen := map[int64]bool{}
 	for _, c := range e.cookies {
 		if !seen[c.issue] {
 			seen[c.issue] = true
-			bs = append(bs, c.issue+twoDays)
+			bs = append(bs, span{c.issueLo + twoDays, c.issue + twoDays})
 		}
 	}
 	return bs
@@ -304,54 +342,67 @@ func cookieID(b []byte) int64 {
 	return int64(ec.ID)
 }
 
-func (e *lsnEnv) handOut(o *lsnObs, cs [][]byte, s *lsnSession) {
-	for _, b := range cs {
+func (e *lsnEnv) handOut(o *lsnObs) {
+	for _, b := range o.cs {
 		id := cookieID(b)
 		o.ids = append(o.ids, id)
 		if _, ok := e.keys[id]; !ok {
-			e.keys[id] = o.hi
+			e.keys[id], e.keyLo[id] = o.hi, o.lo
 			if id > e.maxID {
 				e.maxID = id
 			}
 		}
-		e.cookies = append(e.cookies, lsnCookie{b: b, id: id, issue: o.hi, sess: s})
+		e.cookies = append(e.cookies, lsnCookie{b: b, id: id, issue: o.hi, issueLo: o.lo, sess: o.sess})
 	}
 }
 
-func (e *lsnEnv) check(o *lsnObs, before []int64) {
-	if o.hi-o.lo > ambWidth {
-		e.amb = true
-	}
+// check: the model reads the clock of a step at thi and takes a key's generation time and a
+// cookie's hand-out time as the thi of their step; the implementation read it somewhere in
+// the brackets.  Both decide alike unless a boundary (itself a bracket) meets this bracket.
+func (e *lsnEnv) check(lo, hi int64, before []span) {
 	for _, b := range before {
-		if b > o.lo-ambMargin && b < o.hi+ambMargin {
+		if b.hi > lo-ambSlack && b.lo < hi+ambSlack {
 			e.amb = true
 		}
 	}
 }
 
-func (e *lsnEnv) doStep(st lsnStep) lsnObs {
-	before := e.boundaries()
-	e.ageTo(st.t)
-	var o lsnObs
-	if !st.req {
-		f := &ntske.Fetcher{Log: e.log, Port: strconv.Itoa(ntske.ServerPortIP)}
-		f.TLSConfig.RootCAs = e.pool
-		f.TLSConfig.ServerName = e.ip.String()
-		f.TLSConfig.NextProtos = []string{"ntske/1"}
-		f.TLSConfig.MinVersion = tls.VersionTLS13
-		o.lo = e.vnow()
-		d, err := f.FetchData(context.Background())
-		o.hi = e.vnow()
-		if err != nil {
-			o.ans = 0
-			e.check(&o, before)
-			return o
-		}
-		o.ans = 1
-		e.check(&o, before)
-		e.handOut(&o, d.Cookie, &lsnSession{c2s: d.C2sKey, s2c: d.S2cKey})
-		return o
+func (e *lsnEnv) keyExchange(quic bool) (o lsnObs) {
+	f := &ntske.Fetcher{Log: e.log, Port: strconv.Itoa(ntske.ServerPortIP)}
+	f.TLSConfig.RootCAs = e.pool
+	f.TLSConfig.ServerName = e.ip.String()
+	f.TLSConfig.NextProtos = []string{"ntske/1"}
+	f.TLSConfig.MinVersion = tls.VersionTLS13
+	if quic {
+		f.QUIC.Enabled = true
+		f.QUIC.LocalAddr = udp.UDPAddr{IA: lsnIA, Host: &net.UDPAddr{IP: e.ip}}
+		f.QUIC.RemoteAddr = udp.UDPAddr{IA: lsnIA, Host: &net.UDPAddr{IP: e.ip, Port: ntske.ServerPortSCION}}
 	}
+	o.lo = e.vnow()
+	type res struct {
+		d   ntske.Data
+		err error
+	}
+	ch := make(chan res, 1)
+	go func() {
+		d, err := f.FetchData(context.Background())
+		ch <- res{d, err}
+	}()
+	select {
+	case r := <-ch:
+		o.hi = e.vnow()
+		if r.err == nil {
+			o.ans, o.cs, o.sess = 1, r.d.Cookie, &lsnSession{c2s: r.d.C2sKey, s2c: r.d.S2cKey}
+		}
+	case <-time.After(30 * time.Second):
+		o.hi = e.vnow()
+		e.lost = true
+	}
+	return o
+}
+
+// request sends one NTS request with cookie c through its socket; lo/hi are set by the caller.
+func (e *lsnEnv) request(st lsnStep) (o lsnObs) {
 	ck := e.cookies[st.c]
 	var ntpreq ntp.Packet
 	ntpreq.SetVersion(ntp.VersionMax)
@@ -361,15 +412,12 @@ func (e *lsnEnv) doStep(st lsnStep) lsnObs {
 	ntp.EncodePacket(&buf, &ntpreq)
 	pkt, uid := nts.NewRequestPacket(ntske.Data{C2sKey: ck.sess.c2s, S2cKey: ck.sess.s2c, Cookie: [][]byte{ck.b}})
 	nts.EncodePacket(&buf, &pkt)
-	l := e.socks[st.lsn]
-	o.lo = e.vnow()
+	l := e.socks[st.lsn%2][(st.lsn/2)%nSocks]
 	replies, ok := l.probe(buf)
-	o.hi = e.vnow()
 	if !ok {
-		e.lost = true
+		o.ans = -1
 		return o
 	}
-	e.check(&o, before)
 	if len(replies) == 0 {
 		return o
 	}
@@ -381,14 +429,47 @@ func (e *lsnEnv) doStep(st lsnStep) lsnObs {
 		if len(replies) == 1 && nts.DecodePacket(&rp, replies[0]) == nil &&
 			nts.ProcessResponse(replies[0], ck.sess.s2c, &f, &rp, uid) == nil {
 			o.ans = 1
-			var cs [][]byte
 			for _, c := range rp.Cookies {
-				cs = append(cs, c.Cookie)
+				o.cs = append(o.cs, c.Cookie)
 			}
-			e.handOut(&o, cs, ck.sess)
+			o.sess = ck.sess
 		}
 	}()
 	return o
+}
+
+// doSteps makes the steps of one instant: one key exchange, one request, or a burst of
+// requests sent at the same time through different sockets.
+func (e *lsnEnv) doSteps(sts []lsnStep) []lsnObs {
+	before := e.boundaries()
+	e.ageTo(sts[0].t)
+	obs := make([]lsnObs, len(sts))
+	if !sts[0].req {
+		obs[0] = e.keyExchange(sts[0].lsn == 1 && e.quic)
+	} else {
+		lo := e.vnow()
+		var wg sync.WaitGroup
+		for i := range sts {
+			wg.Add(1)
+			go func(i int) {
+				defer wg.Done()
+				obs[i] = e.request(sts[i])
+			}(i)
+		}
+		wg.Wait()
+		hi := e.vnow()
+		for i := range obs {
+			obs[i].lo, obs[i].hi = lo, hi
+			if obs[i].ans < 0 {
+				e.lost = true
+			}
+		}
+	}
+	e.check(obs[0].lo, obs[0].hi, before)
+	for i := range obs {
+		e.handOut(&obs[i])
+	}
+	return obs
 }
 
 // ---- the generator (inside the child: it plans from what it has seen) -------
@@ -398,6 +479,7 @@ type lsnGen struct {
 	style int
 	e     *lsnEnv
 	first []int // cookies of the first key exchange (the "lone client")
+	pend  [][]lsnStep
 }
 
 func (g *lsnGen) clear(t int64, except int64) bool {
@@ -405,10 +487,10 @@ func (g *lsnGen) clear(t int64, except int64) bool {
 		return false
 	}
 	for _, b := range g.e.boundaries() {
-		if b == except {
+		if b.hi == except {
 			continue
 		}
-		if d := t - b; d > -sec/2 && d < sec/2 {
+		if t > b.lo-sec/2 && t < b.hi+sec/2 {
 			return false
 		}
 	}
@@ -431,34 +513,41 @@ func (g *lsnGen) pickCookie(id int64) int {
 	return idx[g.r.Intn(len(idx))]
 }
 
-func (g *lsnGen) next() lsnStep {
+func (g *lsnGen) sock(kind int) int { return kind + 2*g.r.Intn(nSocks) }
+
+func (g *lsnGen) next() []lsnStep {
 	r, e := g.r, g.e
+	if len(g.pend) > 0 {
+		st := g.pend[0]
+		g.pend = g.pend[1:]
+		if st[0].t > e.vnow()+5*ms && g.clear(st[0].t, -1) {
+			return st
+		}
+	}
 	if len(e.cookies) == 0 {
-		return lsnStep{t: e.vnow() + lib.Pick(r, 10*ms, int64(time.Minute), hour, 5*hour)}
+		return []lsnStep{{t: e.vnow() + lib.Pick(r, 10*ms, int64(time.Minute), hour, 5*hour), lsn: r.Intn(2)}}
 	}
 	now := e.vnow()
 	if g.style == 1 && len(g.first) > 0 && now > e.keys[e.cookies[g.first[0]].id]+validity+hour {
 		g.style = 0 // the lone client's cookies have expired: it is refused from now on; go on with everybody
 	}
+	kind := r.Intn(2)
+	if g.style == 1 {
+		kind = 0 // the lone client: only its first cookies, only over IP (any of its sockets)
+	}
 	for try := 0; try < 200; try++ {
-		var st lsnStep
-		st.lsn = r.Intn(2)
+		st := lsnStep{lsn: g.sock(kind)}
 		mode := r.Intn(100)
-		if g.style == 1 {
-			// the lone client: only its first cookies, only over IP; other clients' key
-			// exchanges make the provider rotate
-			st.lsn = 0
-		}
 		switch {
 		case mode < 45: // a boundary, one second before or after
-			off := lib.Pick(r, -sec, sec)
+			off := lib.Pick(r, -sec, -sec, sec)
 			var b int64
 			switch r.Intn(3) {
 			case 0: // renewal of the newest key: key exchange or request
 				b = e.keys[e.maxID] + renewal
 				st.t = b + off
 				if g.style == 1 || r.Intn(2) == 0 {
-					st.req = false
+					st.req, st.lsn = false, r.Intn(2)
 				} else {
 					st.req, st.c = true, g.pickCookie(e.maxID)
 				}
@@ -497,9 +586,50 @@ func (g *lsnGen) next() lsnStep {
 			if !g.clear(st.t, b) {
 				continue
 			}
-			return st
-		case mode < 60: // another client's key exchange
+			if st.req && off < 0 && r.Intn(10) < 7 {
+				// right after a use one second before the boundary: the same cookie through the
+				// same socket shortly after the boundary (and once more through another socket)
+				f := st
+				f.t = b + lib.Pick(r, sec, 1200*ms, 1500*ms)
+				g.pend = append(g.pend, []lsnStep{f})
+				if r.Intn(2) == 0 {
+					f2 := f
+					f2.t = f.t + lib.Pick(r, 300*ms, sec)
+					f2.lsn = g.sock(f.lsn % 2)
+					g.pend = append(g.pend, []lsnStep{f2})
+				}
+			}
+			return []lsnStep{st}
+		case mode < 58: // another client's key exchange, over TLS or over QUIC/SCION
+			st.lsn = r.Intn(2)
 			st.t = now + lib.Pick(r, r.Range(sec, hour), r.Range(hour, 30*hour))
+		case mode < 70 && len(e.cookies) >= 2: // a burst: several requests at once, each through its own socket
+			t := now + lib.Pick(r, r.Range(10*ms, sec), r.Range(sec, hour), r.Range(hour, 20*hour))
+			if !g.clear(t, -1) {
+				continue
+			}
+			n := 2 + r.Intn(5)
+			var sts []lsnStep
+			used := map[int]bool{}
+			for len(sts) < n {
+				l := g.sock(r.Intn(2))
+				if g.style == 1 {
+					l = g.sock(0)
+				}
+				if used[l] {
+					if len(used) >= 2*nSocks || (g.style == 1 && len(used) >= nSocks) {
+						break
+					}
+					continue
+				}
+				used[l] = true
+				c := g.pickCookie(-1)
+				if g.style == 1 {
+					c = g.first[r.Intn(len(g.first))]
+				}
+				sts = append(sts, lsnStep{req: true, t: t, lsn: l, c: c})
+			}
+			return sts
 		default:
 			st.req = true
 			switch {
@@ -515,9 +645,9 @@ func (g *lsnGen) next() lsnStep {
 		if !g.clear(st.t, -1) {
 			continue
 		}
-		return st
+		return []lsnStep{st}
 	}
-	return lsnStep{t: now + hour + r.Range(0, hour)}
+	return []lsnStep{{t: now + hour + r.Range(0, hour), lsn: r.Intn(2)}}
 }
 
 // lsnChild plays one history and prints it: "CASE <tags> <args> <outs>", "AMB" or "LOST".
@@ -527,35 +657,61 @@ func lsnChild(seed uint64, nsteps int, script string) {
 	g := &lsnGen{r: r, style: r.Intn(3), e: e}
 	var steps []lsnStep
 	var obs []lsnObs
-	var fixed []lsnStep
+	var fixed [][]lsnStep
 	if script != "" {
+		// consecutive requests planned for the same instant through different sockets were a burst
 		for _, n := range parseNodes(script)[0].list {
+			var st lsnStep
 			if n.i(0) == 0 {
-				fixed = append(fixed, lsnStep{t: n.i(1)})
+				st = lsnStep{t: n.i(1)}
+				if len(n.list) > 2 {
+					st.lsn = int(n.i(2))
+				}
 			} else {
-				fixed = append(fixed, lsnStep{req: true, t: n.i(1), lsn: int(n.i(2)), c: int(n.i(3))})
+				st = lsnStep{req: true, t: n.i(1), lsn: int(n.i(2)), c: int(n.i(3))}
 			}
+			if k := len(fixed); k > 0 && st.req && fixed[k-1][0].req && fixed[k-1][0].t == st.t {
+				same := false
+				for _, x := range fixed[k-1] {
+					same = same || x.lsn == st.lsn
+				}
+				if !same {
+					fixed[k-1] = append(fixed[k-1], st)
+					continue
+				}
+			}
+			fixed = append(fixed, []lsnStep{st})
 		}
-		nsteps = len(fixed)
+		nsteps = 1 << 30
 	}
 	tags := map[string]bool{"lsn": true}
-	for i := 0; i < nsteps && !e.amb && !e.lost; i++ {
-		var st lsnStep
+	for i := 0; len(steps) < nsteps && !e.amb && !e.lost; i++ {
+		var sts []lsnStep
 		if fixed != nil {
-			st = fixed[i]
-			if st.req && (st.c < 0 || st.c >= len(e.cookies) || st.lsn < 0 || st.lsn > 1) {
+			if i >= len(fixed) {
+				break
+			}
+			sts = fixed[i]
+			bad := false
+			for _, st := range sts {
+				bad = bad || (st.req && (st.c < 0 || st.c >= len(e.cookies) || st.lsn < 0 || st.lsn >= 2*nSocks))
+			}
+			if bad {
 				break
 			}
 		} else {
-			st = g.next()
+			sts = g.next()
 		}
 		nk := len(e.keys)
-		var ck lsnCookie
-		if st.req {
-			ck = e.cookies[st.c]
+		cks := make([]lsnCookie, len(sts))
+		for j, st := range sts {
+			if st.req {
+				cks[j] = e.cookies[st.c]
+			}
 		}
-		o := e.doStep(st)
-		if i == 0 && !st.req {
+		maxBefore := e.maxID
+		os_ := e.doSteps(sts)
+		if i == 0 && !sts[0].req {
 			for j := range e.cookies {
 				g.first = append(g.first, j)
 			}
@@ -563,26 +719,34 @@ func lsnChild(seed uint64, nsteps int, script string) {
 		if len(e.keys) > nk {
 			tags["rot"] = true
 		}
-		if st.req {
-			tags["ip"] = st.lsn == 0 || tags["ip"]
-			tags["scion"] = st.lsn == 1 || tags["scion"]
-			if o.ans == 0 {
-				tags["refused"] = true
-			}
-			if ck.id != e.maxID && o.ans == 1 {
-				tags["oldkey"] = true
-			}
-			if d := o.lo - (e.keys[ck.id] + validity); d > -2*sec && d < 2*sec {
-				tags["b72"] = true
-			}
-			if d := o.lo - (ck.issue + twoDays); d > -2*sec && d < 2*sec {
-				tags["b48"] = true
-			}
-		} else {
-			tags["ke"] = true
+		if len(sts) > 1 {
+			tags["burst"] = true
 		}
-		steps = append(steps, st)
-		obs = append(obs, o)
+		for j, st := range sts {
+			o := os_[j]
+			if st.req {
+				tags["ip"] = st.lsn%2 == 0 || tags["ip"]
+				tags["scion"] = st.lsn%2 == 1 || tags["scion"]
+				if o.ans == 0 {
+					tags["refused"] = true
+				}
+				if cks[j].id != maxBefore && o.ans == 1 {
+					tags["oldkey"] = true
+				}
+				if d := o.lo - (e.keys[cks[j].id] + validity); d > -2*sec && d < 2*sec {
+					tags["b72"] = true
+				}
+				if d := o.lo - (cks[j].issue + twoDays); d > -2*sec && d < 2*sec {
+					tags["b48"] = true
+				}
+			} else if st.lsn == 1 && e.quic {
+				tags["kequic"] = true
+			} else {
+				tags["ke"] = true
+			}
+		}
+		steps = append(steps, sts...)
+		obs = append(obs, os_...)
 	}
 	if e.lost {
 		fmt.Println("LOST")
@@ -592,18 +756,18 @@ func lsnChild(seed uint64, nsteps int, script string) {
 		fmt.Println("AMB")
 		return
 	}
-	as, os_ := make([]string, len(steps)), make([]string, len(steps))
+	as, outs := make([]string, len(steps)), make([]string, len(steps))
 	for i, st := range steps {
 		if st.req {
 			as[i] = lib.L(lib.V("1", lib.I(st.t), lib.I(int64(st.lsn)), lib.I(int64(st.c))))
 		} else {
-			as[i] = lib.L(lib.V("0", lib.I(st.t)))
+			as[i] = lib.L(lib.V("0", lib.I(st.t), lib.I(int64(st.lsn))))
 		}
 		ids := make([]string, len(obs[i].ids))
 		for j, id := range obs[i].ids {
 			ids[j] = lib.I(id)
 		}
-		os_[i] = lib.L(lib.V(lib.I(obs[i].lo), lib.I(obs[i].hi), lib.I(int64(obs[i].ans)), lib.L(ids...)))
+		outs[i] = lib.L(lib.V(lib.I(obs[i].lo), lib.I(obs[i].hi), lib.I(int64(obs[i].ans)), lib.L(ids...)))
 	}
 	var ts []string
 	if tags["rot"] && tags["refused"] && tags["oldkey"] {
@@ -615,13 +779,26 @@ func lsnChild(seed uint64, nsteps int, script string) {
 		}
 	}
 	sort.Strings(ts)
-	fmt.Printf("CASE\t%s\t%s\t%s\n", strings.Join(ts, ","), lib.L(as...), lib.L(os_...))
+	fmt.Printf("CASE\t%s\t%s\t%s\n", strings.Join(ts, ","), lib.L(as...), lib.L(outs...))
 }
 
 // ---- the parent -------------------------------------------------------------
 
-func runLsnChild(seed uint64, nsteps int, script string) (tags, args, outs string, ok bool) {
+var lsnDropped, lsnSkipped int64
+
+// runLsnChild plays one history in a child; a history that came too close to a boundary
+// is played again with another seed, at most four times, and never past the deadline.
+func runLsnChild(seed uint64, nsteps int, script string, deadline time.Time) (tags, args, outs string, ok bool) {
 	for try := 0; try < 4; try++ {
+		left := time.Until(deadline)
+		if left < 5*time.Second {
+			atomic.AddInt64(&lsnSkipped, 1)
+			return "", "", "", false
+		}
+		limit := 60 * time.Second
+		if left < limit {
+			limit = left
+		}
 		cmd := exec.Command(os.Args[0], "-lsnchild", "-seed", strconv.FormatUint(seed+uint64(try)*1000003, 10), "-lsnsteps", strconv.Itoa(nsteps))
 		cmd.Env = append(os.Environ(), "C12_LSN_SCRIPT="+script)
 		var out, errb bytes.Buffer
@@ -637,8 +814,9 @@ func runLsnChild(seed uint64, nsteps int, script string) (tags, args, outs strin
 				fmt.Printf("NOTE c12: listener child failed: %v %s\n", err, strings.ReplaceAll(lastLines(errb.String(), 6), "\n", " | "))
 				return "lsn,childfailed", "[]", "-1", true
 			}
-		case <-time.After(180 * time.Second):
+		case <-time.After(limit):
 			cmd.Process.Kill()
+			<-done
 			fmt.Println("NOTE c12: listener child timed out")
 			return "lsn,childfailed", "[]", "-1", true
 		}
@@ -648,13 +826,17 @@ func runLsnChild(seed uint64, nsteps int, script string) (tags, args, outs strin
 				return p[1], p[2], p[3], true
 			}
 			if p[0] == "LOST" {
-				fmt.Println("NOTE c12: a sentinel request to a listener went unanswered")
+				fmt.Println("NOTE c12: a sentinel request to a listener (or a key exchange) went unanswered")
 				return "lsn,lost", "[]", "-1", true
 			}
+			if strings.HasPrefix(line, "NOTE ") {
+				fmt.Println(line)
+			}
 		}
-		// AMB: a step came too close to a boundary or took too long; play another history
+		// AMB: the bracket of a step met a boundary; play another history
+		atomic.AddInt64(&lsnDropped, 1)
 	}
-	fmt.Println("NOTE c12: listener history dropped four times (machine too slow for the 250 ms step limit)")
+	atomic.AddInt64(&lsnSkipped, 1)
 	return "", "", "", false
 }
 
@@ -666,11 +848,12 @@ func lastLines(s string, n int) string {
 	return strings.Join(l, "\n")
 }
 
-func lsnCases(seed uint64, n int) {
+func lsnCases(seed uint64, n int, budget time.Duration) {
 	type res struct {
 		tags, args, outs string
 		ok               bool
 	}
+	deadline := time.Now().Add(budget)
 	out := make([]res, n)
 	var wg sync.WaitGroup
 	sem := make(chan struct{}, 3)
@@ -681,14 +864,18 @@ func lsnCases(seed uint64, n int) {
 			sem <- struct{}{}
 			defer func() { <-sem }()
 			var x res
-			x.tags, x.args, x.outs, x.ok = runLsnChild(seed*7919+uint64(i)*104729+1, 30+int((seed+uint64(i))%25), "")
+			x.tags, x.args, x.outs, x.ok = runLsnChild(seed*7919+uint64(i)*104729+1, 30+int((seed+uint64(i))%25), "", deadline)
 			out[i] = x
 		}(i)
 	}
 	wg.Wait()
+	got := 0
 	for _, x := range out {
 		if x.ok {
+			got++
 			w.Case("prov.lsn", x.tags, x.args, x.outs)
 		}
 	}
+	fmt.Printf("NOTE c12 listeners: %d histories recorded, %d attempts thrown away (a step's bracket met a decision boundary) and replayed, %d histories given up (four attempts or the %v budget)\n",
+		got, atomic.LoadInt64(&lsnDropped), atomic.LoadInt64(&lsnSkipped), budget)
 }
